@@ -19,8 +19,12 @@ package tso
 import (
 	"time"
 
+	"github.com/pingcap/kvproto/pkg/pdpb"
 	"go.etcd.io/etcd/clientv3"
 )
 
 // verifNow is the identity unless built with the verif tag.
 func verifNow(_ *clientv3.Client, now time.Time) time.Time { return now }
+
+// verifSyncMaxTS does nothing unless built with the verif tag.
+func verifSyncMaxTS(string, string, *pdpb.SyncMaxTSRequest, *syncResp) {}
